@@ -260,7 +260,7 @@ def source_literals():
     return out
 
 
-def new_literals(cap=10):
+def new_literals(cap=24):
     """literals of the current tree that the reconciled tree did not contain (empty on the unchanged tree), most telling first"""
     import json
     try:
@@ -270,4 +270,16 @@ def new_literals(cap=10):
     new = sorted(v for v in source_literals() - base if 9 <= v < (1 << 64))
     # prefer numbers that look like thresholds (not 2^k-1 masks of small width), keep a spread of magnitudes
     new.sort(key=lambda v: (v < 17, -len(str(v))))
-    return new[:cap]
+    if len(new) <= cap:
+        return new
+    # more than the budget (a table of heights, say): a spread over the magnitudes, the smallest and the largest of each included
+    groups = {}
+    for v in new:
+        groups.setdefault(len(str(v)), []).append(v)
+    picked = []
+    while len(picked) < cap and any(groups.values()):
+        for k in sorted(groups, reverse=True):
+            g = groups[k]
+            if g and len(picked) < cap:
+                picked.append(g.pop(0 if len(picked) % 2 == 0 else -1))
+    return picked
